@@ -70,7 +70,10 @@ def optNat : Option Nat → String
   | some n => toString n
 
 def evTok (l : List Ev) : String :=
-  if l.isEmpty then "-" else String.ofList (l.map fun e => match e with | .rootca => 'R' | .workload => 'W')
+  if l.isEmpty then "-" else String.ofList (l.map fun e => match e with
+    | .rootca => 'R'
+    | .workload true => 'W'     -- `default` callback that found the workload cache empty
+    | .workload false => 'w')
 
 /-- Nearest quarter of `delay / lifetime` (0..4); for a non-positive lifetime 0 iff the delay is 0. -/
 def bucket (d L : Int) : Int :=
@@ -225,6 +228,14 @@ def stepD (d : DState) (toks : List String) : DState × String :=
   | "rotobs" :: _ => (d, stepRotate toks)
   | "conc" :: _ => (d, stepConc toks)
   | "rt" :: _ => (d, stepTimer toks)
+  | ["cgen", r, kind] =>
+    -- stream `citadel`: what the in-process CA's answer means to the agent: the trust root of a chain is
+    -- its LAST element; a chain without a root (one element), an empty chain and a gRPC error are CA errors
+    if kind == "normal" then stepCache d ["gen", r, "ok", "3600", "A", "-"]
+    else if kind == "three" then stepCache d ["gen", r, "ok", "3600", "B", "-"]
+    else if kind == "leafonly" || kind == "empty" || kind == "error" then stepCache d ["gen", r, "signerr"]
+    else (d, "bad-op")
+  | ["qs", _, _] => (d, "lost=0")   -- in the model a pushed task can always be started (`spawn (.timer e)`)
   | _ => stepCache d toks
 
 end IstioModel.C18
